@@ -175,6 +175,15 @@ static void part_estimates(int thorough) {
 		lzma_mt mt = { .threads = th, .preset = p, .check = LZMA_CHECK_CRC32, .block_size = bs == 0 ? 0 : bs == 1 ? 4096 : 65536 }; snprintf(desc, sizeof desc, "mt encoder threads=%u preset=%u block_size=%llu", th, p, (unsigned long long)mt.block_size); H_CASE("c09 estimates %s", desc);
 		lzma_stream s = LZMA_STREAM_INIT; s.allocator = &AL; reset_counters(); if (lzma_stream_encoder_mt(&s, &mt) != LZMA_OK) continue; s.next_in = src; s.avail_in = sizeof src; s.next_out = cbuf; s.avail_out = sizeof cbuf; lzma_ret r; while ((r = lzma_code(&s, LZMA_FINISH)) == LZMA_OK) {} lzma_end(&s);
 		est_check("lzma_stream_encoder_mt_memusage", lzma_stream_encoder_mt_memusage(&mt), atomic_load(&peak_b)); if (atomic_load(&live_n)) FAILM("leak", "mt encoder leak"); }
+	// a slow consumer: input is offered with no output space until the encoder accepts no more (every output buffer the queue may hold is in use), then everything is read
+	{ static uint8_t zin[10 << 20], zo[1 << 20]; for (uint32_t th = 1; th <= 3; th++) for (int bs = 0; bs < 2; bs++) { if ((unit++ % nsh) != sh) continue;
+		lzma_mt mt = { .threads = th, .preset = 0, .check = LZMA_CHECK_CRC32, .block_size = bs ? 1 << 20 : 65536 }; snprintf(desc, sizeof desc, "mt encoder threads=%u block_size=%llu, output withheld until nothing more is accepted", th, (unsigned long long)mt.block_size); H_CASE("c09 estimates %s", desc);
+		lzma_stream s = LZMA_STREAM_INIT; s.allocator = &AL; reset_counters(); if (lzma_stream_encoder_mt(&s, &mt) != LZMA_OK) continue; size_t total = bs ? sizeof zin : (size_t)65536 * 10;
+		s.next_in = zin; s.avail_in = total; s.next_out = zo; s.avail_out = 12; lzma_ret r = LZMA_OK; int idle = 0;
+		for (int g = 0; g < 2000 && r == LZMA_OK && idle < 3; g++) { size_t bi = s.avail_in, bo = s.avail_out; r = lzma_code(&s, LZMA_RUN); if (r == LZMA_BUF_ERROR) { r = LZMA_OK; idle = 3; } idle = (bi == s.avail_in && bo == s.avail_out) ? idle + 1 : 0; if (s.avail_in == 0) break; }
+		while (r == LZMA_OK || r == LZMA_BUF_ERROR) { s.next_out = zo; s.avail_out = sizeof zo; r = lzma_code(&s, LZMA_FINISH); }
+		if (r != LZMA_STREAM_END) FAILM("mt-result", "threaded encoder returned %d", r);
+		est_check("lzma_stream_encoder_mt_memusage (slow consumer)", lzma_stream_encoder_mt_memusage(&mt), atomic_load(&peak_b)); lzma_end(&s); } }
 	// the threaded encoder re-initialised on the same handle with FEWER threads (same block size): what the second session holds at its
 	// peak, including anything kept from the first, must be covered by the estimate for the second session's options
 	static uint8_t bigsrc[6 << 20], bigout[1 << 20];	// zeros: six 1 MiB Blocks keep every worker and output buffer busy
